@@ -93,6 +93,9 @@ func StepBudget(c *RunConfig) int {
 		}
 		reads := int(c.Required())/minChunk + wi.Samples*2 + 64
 		est += reads/c.ReadYield + wi.Samples
+		// code that calls source.Read itself (instead of io.ReadFull) gets a
+		// scheduling point per Read from the instrumenter
+		est += reads
 	}
 	return 10 * est
 }
